@@ -462,7 +462,15 @@ def iterate_duals(ck, c0, d1, ok, levels=2, stats=None, rng=None):
     for lvl in range(2, 2 + levels):
         if int(prev.n_face) < 1:
             return
-        cc = case_from_grid(prev, "%s | dual^%d" % (c0["name"], lvl - 1), c0["kind"])
+        try:
+            cc = case_from_grid(prev, "%s | dual^%d" % (c0["name"], lvl - 1), c0["kind"])
+        except Exception as ex:
+            root = {k: c0[k] for k in ("table", "lonlat", "n_node", "closed", "mesh_class", "name", "kind", "nodes")}
+            ck.fail("dual_consistency", dict(root, iterate=lvl, root=root),
+                    {"level": "dual^%d" % (lvl - 1), "closed": c0["closed"], "mesh_class": c0["mesh_class"],
+                     "variable": "face_node_connectivity", "stage": "indices of the returned dual"},
+                    detail="the dual's face_node_connectivity does not index its own nodes: " + repr(ex))
+            return
         inc = incident([real(r) for r in cc["table"]], cc["n_node"])
         if cc["duplicate_nodes"] or not cc["simple"] or not any(len(x) >= 3 for x in inc) \
                 or max(len(x) for x in inc) > 8 or max(len(real(r)) for r in cc["table"]) > 8:
